@@ -51,15 +51,17 @@ def tok_spellings(spellings):
 
 
 def random_number_text(rng, allow_junk=False):
-    d = rng.choice(["0", "1", "7", "12", "100", "170", "171", "9007199254740993", "18446744073709551616",
+    d = rng.choice(["0", "1", "7", "12", "100", "170", "171", "9007199254740993", "18446744073709551616", "0000012", "1" + "0" * rng.choice([20, 60, 310]),
                     str(rng.randrange(0, 10 ** rng.choice([1, 3, 6, 17, 25])))])
     s = d
     r = rng.random()
     if r < 0.4:
-        s += "." + rng.choice(["0", "5", "25", "125", "000001", str(rng.randrange(0, 10 ** rng.choice([1, 4, 18])))])
+        s += "." + rng.choice(["0", "5", "25", "125", "000001", str(rng.randrange(0, 10 ** rng.choice([1, 4, 18]))),
+                               "".join(rng.choice("0123456789") for _ in range(rng.choice([17, 18, 19, 25, 40, 80]))),
+                               "0" * rng.choice([16, 17, 18, 30]) + "1", "000000000000000111022302462515655", "1000000000000000055511151231257827"])
     r = rng.random()
     if r < 0.35:
-        s += "e" + rng.choice(["", "-"]) + rng.choice(["0", "1", "2", "5", "10", "19", "22", "100", "308", "309", "324", "400"])
+        s += "e" + rng.choice(["", "-"]) + rng.choice(["0", "1", "2", "5", "10", "19", "22", "100", "308", "309", "324", "400", "0005", "18", "17", "00"])
     if allow_junk and rng.random() < 0.3:
         s += rng.choice(["e", "e-", ".", "e+1", ".e1", "e²", "e٣", "..1", "e1e1", ".5.5", "x", "m", "em"])
     return s
